@@ -29,7 +29,7 @@ ASSUMPTIONS = [
 BIG_KINDS = ("item", "item-ops", "$and", "$or", "$not", "$and_any_order")
 KINDS = ["item", "item-ops", "$and", "$or", "$not", "$and_any_order", "nested-times", "nested-times", "capture-ref", "nested-times-gap", "nested-times-gap"]
 SHAPES = ["sandwich", "sandwich", "sandwich", "free", "meta", "meta"]
-FLOORS = {"shape=sandwich": 0.3, "shape=meta": 0.2, "edge=min": 0.035, "edge=max": 0.035, "edge=max+1": 0.028, "edge=min-1": 0.02, "rel=macro-plain-use": 0.009, "bounds=multi-digit": 0.03}
+FLOORS = {"shape=sandwich": 0.3, "shape=meta": 0.2, "edge=min": 0.035, "edge=max": 0.035, "edge=max+1": 0.028, "edge=min-1": 0.02, "rel=macro-plain-use": 0.009, "rel=macro-times-use": 0.006, "rel=operand-regcapture-ref": 0.005, "bounds=multi-digit": 0.03, "spelling=sibling-null": 0.04}
 for _k in KINDS:
     FLOORS[f"kind={_k}"] = 0.04
 
@@ -54,10 +54,13 @@ def times_value(draw, lo, hi, form):
 
 def attach(node, t, spelling):
     """spelling: 'inside' ({m: {times: t}}), 'sibling' ({m: [...], times: t}), 'sibling-first' ({times: t, m: [...]}: a YAML
-    mapping has no order, the sibling key may just as well be written first)."""
+    mapping has no order, the sibling key may just as well be written first), 'sibling-null' ({m: null, times: t}: an operand-less item
+    whose key has no value; for everything else the same as 'sibling')."""
     if isinstance(node, (str, int)):
         if spelling == "inside":
             return {node: {"times": t}}
+        if spelling == "sibling-null":
+            return {node: None, "times": t}  # `- nop:` / `  times: 3`: the item key without a value (F35)
         return {"times": t, node: []} if spelling == "sibling-first" else {node: [], "times": t}
     if spelling == "sibling-first":
         d = {"times": t}
@@ -153,7 +156,7 @@ def cases(draw):
         lo = draw(st.sampled_from([7, 9, 10, 11, 12, 19, 20, 31, 32, 64, 99, 100, 101]))
         hi = lo if form == "int" else lo + draw(st.sampled_from([0, 1, 2, 9, 10, 90]))
     t = times_value(draw, lo, hi, form)
-    spelling = draw(st.sampled_from(["inside", "sibling", "sibling-first"]))
+    spelling = draw(st.sampled_from(["inside", "sibling", "sibling-first", "sibling-null"]))
     full = draw(st.sampled_from([(False, False), (False, False), (True, False), (False, True), (True, True)]))
     if shape == "free":
         L = draw(listings(min_len=2, max_len=12))
@@ -248,14 +251,26 @@ def cases(draw):
     if shape == "sandwich":
         pattern = [dA, attach(node, t, spelling), dB]
         assume(_names_ok(pattern))
-        return {"shape": shape, "kind": kind, "listing": L, "pattern": pattern, "edge": edge, "times": t, "r": r, "flags": list(full), "ext": ext, "big": big}
+        return {"shape": shape, "kind": kind, "listing": L, "pattern": pattern, "edge": edge, "times": t, "r": r, "flags": list(full), "ext": ext, "big": big, "spelling": spelling}
     # meta
-    rel = draw(st.sampled_from(["unroll", "unroll", "range-eq-int", "spelling", "operand-deref", "operand-or", "operand-not", "operand-capture-ref", "macro-plain-use", "macro-plain-use", "macro-plain-use"]))
+    rel = draw(st.sampled_from(["unroll", "unroll", "range-eq-int", "spelling", "operand-deref", "operand-or", "operand-not", "operand-capture-ref", "operand-regcapture-ref", "macro-plain-use", "macro-plain-use", "macro-plain-use", "macro-times-use", "macro-times-use"]))
     n_ = draw(st.integers(0, 4))
     macros = None
-    if rel == "macro-plain-use" and (kind not in ("item", "item-ops", "$or", "$and") or not usable):
+    if rel in ("macro-plain-use", "macro-times-use") and (kind not in ("item", "item-ops", "$or", "$and") or not usable):
         rel = "unroll"
-    if rel == "macro-plain-use":
+    if rel == "macro-times-use":
+        # `times` on the invocation of a list-bodied macro repeats what the macro stands for: [A, @m{times t}, B] against the same
+        # rule with the body written out by hand and carrying that times (F32); run lengths around both bounds
+        macros = [{"name": "@ytimes_", "pattern": [copy.deepcopy(node)]}]
+        reps = draw(st.sampled_from(sorted({max(0, lo - 1), lo, hi, hi + 1, 1})))
+        run = []
+        for _ in range(reps):
+            run.extend(draw(st.sampled_from(usable)))
+        L = _mk_listing(draw, pre + [A] + run + [B] + post)
+        inv = {"@ytimes_": {"times": t}} if spelling == "inside" else {"@ytimes_": [], "times": t} if spelling == "sibling" else {"times": t, "@ytimes_": []}
+        p1 = [dA, inv, dB]
+        p2 = [dA, {"$and": [copy.deepcopy(node)], "times": t}, dB]
+    elif rel == "macro-plain-use":
         # an item without `times` is bounds (1,1) - also when it is a macro use and ANOTHER use of the same macro carries `times`:
         # [A, @m{times t}, @m, B] against the same rule with the plain use written out by hand (the macro still defined and used by
         # the first item, whatever `times` on an invocation means); run lengths where (1,1) and an inherited {lo,hi} part
@@ -291,6 +306,9 @@ def cases(draw):
         elif rel == "operand-capture-ref":
             att, norm = draw(st.sampled_from([("%rax", "%rax"), ("$0x10", "0x10"), ("%r8d", "%r8d")]))
             opnode = None
+        elif rel == "operand-regcapture-ref":
+            att, norm = draw(st.sampled_from([("%rax", "%rax"), ("%ebx", "%ebx"), ("%cx", "%cx"), ("%dl", "%dl")]))
+            opnode = None
         elif rel == "operand-not":
             # n consecutive operands none of which is the negated one (half of the time one of them is: both spellings then fail)
             att, norm = draw(st.sampled_from([("%rax", "%rax"), ("$0x10", "0x10"), ("%r8d", "%r8d")]))
@@ -301,12 +319,15 @@ def cases(draw):
         cnt = draw(st.integers(max(0, n_ - 1), n_ + 1))
         tail_att, tail_norm = draw(st.sampled_from([("%rcx", "%rcx"), ("$0x1", "0x1")]))
         tval = n_ if draw(st.booleans()) else {"min": n_, "max": n_}
-        if rel == "operand-capture-ref":
-            # the repeated operand is a later occurrence of an operand capture defined by the first operand
+        if rel in ("operand-capture-ref", "operand-regcapture-ref"):
+            # the repeated operand is a later occurrence of an operand capture (or of a register-family capture, F31) defined by the
+            # first operand
+            cname = "&yo" if rel == "operand-capture-ref" else draw(st.sampled_from(["&genreg", "&genreg-y", "&genreg.q"]))
+            later = cname if rel == "operand-capture-ref" else cname + draw(st.sampled_from(["", "", {"%rax": ".64", "%ebx": ".32", "%cx": ".16", "%dl": ".8l"}[att]]))
             inst = ["vfoo", [att] * (cnt + 1) + [tail_att], [norm] * (cnt + 1) + [tail_norm]]
             L = _mk_listing(draw, pre + [A, inst, B] + post)
-            p1 = [dA, {"vfoo": ["&yo", {"&yo": {"times": tval}}, "c" if tail_norm == "%rcx" else "0x1"]}, dB]
-            p2 = [dA, {"vfoo": ["&yo"] + ["&yo"] * n_ + ["c" if tail_norm == "%rcx" else "0x1"]}, dB]
+            p1 = [dA, {"vfoo": [cname, {later: {"times": tval}}, "c" if tail_norm == "%rcx" else "0x1"]}, dB]
+            p2 = [dA, {"vfoo": [cname] + [later] * n_ + ["c" if tail_norm == "%rcx" else "0x1"]}, dB]
         else:
             inst = ["vfoo", [att] * cnt + [tail_att], [norm] * cnt + [tail_norm]]
             L = _mk_listing(draw, pre + [A, inst, B] + post)
@@ -329,7 +350,7 @@ def _names_ok(node, operand=False):
             if k in ("$or", "$and", "$and_any_order", "$not"):
                 if not _names_ok(v, operand):
                     return False
-            elif k in ("$deref", "times") or str(k) in ("@ytimes_", "&yo", "&yc"):
+            elif k in ("$deref", "times") or str(k) in ("@ytimes_", "&yo", "&yc") or str(k).startswith("&genreg"):
                 continue
             else:
                 if not lit_ok(str(k), operand=False):
@@ -337,7 +358,7 @@ def _names_ok(node, operand=False):
                 if isinstance(v, list) and not _names_ok(v, True):
                     return False
         return True
-    if node in ("@ytimes_", "&yo", "&yc"):
+    if node in ("@ytimes_", "&yo", "&yc") or str(node).startswith("&genreg"):
         return True
     return lit_ok(str(node), operand=operand)
 
@@ -361,6 +382,8 @@ def evaluate(case):
         ev.tags.append("ext=" + case["ext"])
     if case.get("big"):
         ev.tags.append("bounds=multi-digit")
+    if case.get("spelling"):
+        ev.tags.append("spelling=" + case["spelling"])
     if shape in ("sandwich", "free"):
         exp, spans, _ = compare(ev, case["pattern"], L, mn_arg, op_arg)
         ev.tags.append("expect=found" if exp else "expect=notfound")
